@@ -34,6 +34,7 @@ var authItems = []string{
 	"S23-skx-signed-with-encryption-key", "S24-pinned-selfsigned-pair(allowed)", "S24-pinned-pair-other-name", "S24-pinned-pair-not-yet-valid", "S24-pinned-pair-expired",
 	"S25-common-name-matches-san-does-not", "S26-pair-under-expired-ca", "S27-pair-expired-since-the-cached-session", "S27-other-encryption-certificate-since-the-cached-session", "C16-leaf-under-expired-intermediate", "TS25-common-name-matches-san-does-not", "C17-leaf-below-ca-issued-under-pathlen-0", "C17-leaf-directly-below-pathlen-0-ca(allowed)", "C18-verifying-policy-no-client-cas-genuine-cert", "C18-verifying-policy-no-client-cas-selfsigned-cert",
 	"S19-wildcard-one-label(allowed)", "S19-wildcard-deeper-name", "S19-wildcard-parent-name", "TS19-wildcard-one-label(allowed)", "TS19-wildcard-deeper-name", "TS19-wildcard-parent-name",
+	"S28-ip-san-exact-address(allowed)", "S28-ip-san-other-address", "TS28-ip-san-exact-address(allowed)", "TS28-ip-san-other-address",
 	"TS0-honest-server", "TS1-untrusted-root", "TS3-wrong-name", "TS10-rsa-key-not-held", "TS5-ecdhe-params-signed-by-other-key", "TS6-ecdhe-params-signature-over-other-randoms", "TS9-ecdhe-params-signature-garbage", "TS4-ecdsa-cert-for-rsa-suite",
 	"TC0-honest-client", "TC1-no-cert", "TC2-untrusted-ca", "TC3-cv-other-key", "TC4-cv-other-transcript", "TC5-cv-omitted", "TC5-cv-omitted-enc-only-cert", "TC3-cv-other-key-enc-only-cert", "TC12-certificate-message-omitted", "TC8-ifgiven-no-cert",
 	"T0-honest", "T1-wrong-name", "T2-untrusted-root", "T3-client-cert-untrusted", "T4-no-client-cert", "T5-client-cert-if-given-untrusted", "T6-ip-literal-name",
@@ -95,7 +96,7 @@ func drawImpostor(c *simkit.Choice, ent *simkit.Stream) impRun {
 		sc := &reftls.ServerCfg{Rand: ent, Suites: []uint16{ir.Suite}, Sign: ident("srv-sign", true), Enc: ident("srv-enc", true)}
 		ir.scfg = sc
 		items := []string{"S0-honest-server", "S1-untrusted-ca", "S2-expired", "S2-not-yet-valid", "S2-client-clock-before", "S2-client-clock-after", "S2-one-expired", "S3-wrong-name", "S3-one-wrong-name", "S3-ip-literal-server-name",
-			"S4-rsa-sign-cert", "S4-p256-sign-cert", "S4-rsa-enc-cert", "S5-skx-other-key", "S6-skx-replayed-randoms", "S7-skx-other-enc-cert", "S8-skx-omitted", "S9-skx-malformed", "S10-no-enc-key", "S11-certs-swapped", "S12-one-cert", "S13-eku-clientauth-only", "S14-keyusage-sign-cert", "S14-keyusage-enc-cert", "V1-client-callback-rejects", "S15-untrusted-ca-ships-its-root", "S15-extra-unrelated-selfsigned", "S16-dual-usage-sign-cert-enc-key-not-held", "S17-lookalike-of-trusted-root", "S18-leaves-issued-by-v1-end-entity", "S19-wildcard-one-label(allowed)", "S19-wildcard-deeper-name", "S19-wildcard-parent-name", "S21-session-of-another-name-resumed", "S20-only-unknown-extended-key-usage",
+			"S4-rsa-sign-cert", "S4-p256-sign-cert", "S4-rsa-enc-cert", "S5-skx-other-key", "S6-skx-replayed-randoms", "S7-skx-other-enc-cert", "S8-skx-omitted", "S9-skx-malformed", "S10-no-enc-key", "S11-certs-swapped", "S12-one-cert", "S13-eku-clientauth-only", "S14-keyusage-sign-cert", "S14-keyusage-enc-cert", "V1-client-callback-rejects", "S15-untrusted-ca-ships-its-root", "S15-extra-unrelated-selfsigned", "S16-dual-usage-sign-cert-enc-key-not-held", "S17-lookalike-of-trusted-root", "S18-leaves-issued-by-v1-end-entity", "S19-wildcard-one-label(allowed)", "S19-wildcard-deeper-name", "S19-wildcard-parent-name", "S21-session-of-another-name-resumed", "S20-only-unknown-extended-key-usage", "S28-ip-san-exact-address(allowed)", "S28-ip-san-other-address",
 			"S22-name-constrained-ca-permits-name(allowed)", "S22-name-constrained-ca-permits-parent-domain(allowed)", "S22-name-constrained-ca-lookalike-suffix", "S22-name-constrained-ca-other-domain", "S22-name-constrained-ca-subdomain-only",
 			"S23-skx-signed-with-encryption-key", "S24-pinned-selfsigned-pair(allowed)", "S24-pinned-pair-other-name", "S24-pinned-pair-not-yet-valid", "S24-pinned-pair-expired",
 			"S25-common-name-matches-san-does-not", "S26-pair-under-expired-ca", "S27-pair-expired-since-the-cached-session", "S27-other-encryption-certificate-since-the-cached-session"}
@@ -197,6 +198,17 @@ func drawImpostor(c *simkit.Choice, ent *simkit.Stream) impRun {
 				ir.VictimName = []string{"login.internal.wild.sim", "a.b.c.wild.sim", "a.b.wild.sim"}[c.Choose(3, simkit.LFault)]
 			default:
 				ir.VictimName = []string{"wild.sim", "xwild.sim", "host.wild.sim.evil"}[c.Choose(3, simkit.LFault)]
+			}
+		case "S28-ip-san-exact-address(allowed)", "S28-ip-san-other-address":
+			// genuine certificates for the IP address 10.0.0.1 only: good for that address in
+			// any spelling, not for a neighbour and not for an IPv6 address that ends in the
+			// same four bytes
+			sc.Sign, sc.Enc = ident("srvip-sign", true), ident("srvip-enc", true)
+			if ir.Item == "S28-ip-san-exact-address(allowed)" {
+				ir.VictimName = "10.0.0.1"
+				ir.Expect = expComplete
+			} else {
+				ir.VictimName = []string{"2001:db8::a00:1", "10.0.0.2", "fe80::a00:1"}[c.Choose(3, simkit.LFault)]
 			}
 		case "S21-session-of-another-name-resumed":
 			// The impostor is the legitimate holder of the certificates for server2.sim. The
@@ -418,7 +430,7 @@ func drawImpostorTLS(c *simkit.Choice, ent *simkit.Stream, ir *impRun) {
 	if !ir.VictimSrv {
 		sc := &reftls.ServerCfg{Rand: ent, Suites: []uint16{ir.Suite}, TLS12: true, Sign: rsaID("tlsrsa", true)}
 		ir.scfg = sc
-		items := []string{"TS0-honest-server", "TS1-untrusted-root", "TS3-wrong-name", "TS10-rsa-key-not-held", "TS4-ecdsa-cert-for-rsa-suite", "TS7-leaf-issued-by-v1-end-entity", "TS19-wildcard-one-label(allowed)", "TS19-wildcard-deeper-name", "TS19-wildcard-parent-name", "TS25-common-name-matches-san-does-not"}
+		items := []string{"TS0-honest-server", "TS1-untrusted-root", "TS3-wrong-name", "TS10-rsa-key-not-held", "TS4-ecdsa-cert-for-rsa-suite", "TS7-leaf-issued-by-v1-end-entity", "TS19-wildcard-one-label(allowed)", "TS19-wildcard-deeper-name", "TS19-wildcard-parent-name", "TS25-common-name-matches-san-does-not", "TS28-ip-san-exact-address(allowed)", "TS28-ip-san-other-address"}
 		if ecdhe {
 			items = []string{"TS0-honest-server", "TS1-untrusted-root", "TS3-wrong-name", "TS5-ecdhe-params-signed-by-other-key", "TS6-ecdhe-params-signature-over-other-randoms", "TS9-ecdhe-params-signature-garbage", "TS7-leaf-issued-by-v1-end-entity"}
 		}
@@ -436,6 +448,14 @@ func drawImpostorTLS(c *simkit.Choice, ent *simkit.Stream, ir *impRun) {
 				ir.VictimName = []string{"login.internal.wild.sim", "a.b.c.wild.sim", "a.b.wild.sim"}[c.Choose(3, simkit.LFault)]
 			default:
 				ir.VictimName = []string{"wild.sim", "xwild.sim", "host.wild.sim.evil"}[c.Choose(3, simkit.LFault)]
+			}
+		case "TS28-ip-san-exact-address(allowed)", "TS28-ip-san-other-address":
+			sc.Sign = rsaID("tlsip", true)
+			if ir.Item == "TS28-ip-san-exact-address(allowed)" {
+				ir.VictimName = "10.0.0.1"
+				ir.Expect = expComplete
+			} else {
+				ir.VictimName = []string{"2001:db8::a00:1", "10.0.0.2", "fe80::a00:1"}[c.Choose(3, simkit.LFault)]
 			}
 		case "TS7-leaf-issued-by-v1-end-entity":
 			sc.Sign = &reftls.Identity{Chain: [][]byte{pki.DER("forgedrsa-srv"), pki.DER("v1eersa")}, RSA: refRSA("forgedrsa-srv")}
